@@ -4,7 +4,7 @@
    = `approximate_float(val, 10e-20, 30)`: a continued-fraction expansion carried out in
    f64 arithmetic that stops as soon as fl(n/d) is within 1e-19 of val.  It does not return
    the exact dyadic value of the float even when i64/i64 can hold it (0.1 -> 1/10,
-   3*2^-40 -> 1/366503875925): known finding C12-float-r64-approx.  [approx_r64] mirrors the
+   3*2^-40 -> 1/366503875925): known finding float-r64-approx.  [approx_r64] mirrors the
    Rust code statement by statement so that the judge accepts as "known" only the very
    answer the defect produces. *)
 From Coq Require Import List ZArith Bool String.
